@@ -375,6 +375,9 @@ func (rw *rewriter) rewriteStmt(s ast.Stmt) []ast.Stmt {
 				rw.rewriteBlock(fl.Body)
 			}
 			for i, a := range call.Args {
+				if tv, ok := rw.info.Types[a]; ok && tv.Value != nil {
+					continue // a constant: nothing to evaluate early, and hoisting it would lose its untyped-ness
+				}
 				tmp := ast.NewIdent(fmt.Sprintf("zzarg%d_%d", int(st.Pos()), i))
 				pre = append(pre, &ast.AssignStmt{Lhs: []ast.Expr{tmp}, Tok: token.DEFINE, Rhs: []ast.Expr{a}})
 				call.Args[i] = tmp
